@@ -430,7 +430,19 @@ func (u *Universe) setField(x Term, name string, v Term) Term {
 // heap name for a ref sort
 func heapName(s *Sort) string {
 	if s.Key != nil {
-		return "M_" + sanitize(s.Key.Name) + "_" + sanitize(s.Elem.Name)
+		n := "M_" + sanitize(s.Key.Name) + "_" + sanitize(s.Elem.Name)
+		// Maps whose values are references of different Go types cannot alias (the map types
+		// differ and are not convertible), but their references are all integers: without the
+		// pointee in the heap's name they would share one heap and every write to one of them
+		// would need a distinctness fact about all the others.
+		if e := s.Elem; e != nil && e.Kind == KRef {
+			if e.Key != nil {
+				n += "_" + heapName(e)
+			} else if e.Elem != nil {
+				n += "_" + sanitize(e.Elem.Name)
+			}
+		}
+		return n
 	}
 	return "H_" + sanitize(s.Elem.Name)
 }
